@@ -472,6 +472,10 @@ def inline(ctx, f: FuncInfo, want: Callable[[FuncInfo], bool] | None = None) -> 
                 if bt is not None:
                     new.extend(rebuild(bt, depth + 1, active))
                     continue
+            if isinstance(st, (ast.With, ast.AsyncWith)) and depth < MAX_DEPTH:
+                w2 = with_item_helper(st)
+                if w2 is not None:
+                    st = w2
             if isinstance(st, (ast.For, ast.AsyncFor)) and depth < MAX_DEPTH:
                 pair = iter_expr_helper(st)
                 if pair is not None:
@@ -536,6 +540,85 @@ def inline(ctx, f: FuncInfo, want: Callable[[FuncInfo], bool] | None = None) -> 
             changed[0] = True
             return asg, st2
         return None
+
+    def with_item_helper(st):
+        """`with self._open(path, "save") as f:` with the helper a one-expression function: the expression in place
+        (parameters replaced by the plain arguments), `**TABLE["key"]` of a constant table written out as keywords."""
+        new_items = []
+        hit = False
+        for it in st.items:
+            ce = it.context_expr
+            c = ce.value if isinstance(ce, ast.Await) else ce
+            h = _helper_of(ctx, f, c) if isinstance(c, ast.Call) else None
+            ok = h is not None and h is not f and not h.is_async and want(h)
+            if ok:
+                hb = list(h.node.body)
+                if hb and isinstance(hb[0], ast.Expr) and isinstance(hb[0].value, ast.Constant):
+                    hb = hb[1:]
+                params = [p for p in h.positional_params if not (p in ("self", "cls") and h.cls is not None and not h.is_staticmethod())]
+                ok = len(hb) == 1 and isinstance(hb[0], ast.Return) and hb[0].value is not None and not c.keywords and len(c.args) == len(params) and all(isinstance(a, (ast.Name, ast.Constant)) or (isinstance(a, ast.Attribute) and isinstance(a.value, ast.Name)) for a in c.args)
+            if not ok:
+                new_items.append(it)
+                continue
+            amap_ = dict(zip(params, c.args))
+            new_e = copy.deepcopy(hb[0].value)
+
+            class _Sub(ast.NodeTransformer):
+                def visit_Name(self, n):
+                    if n.id in amap_ and isinstance(n.ctx, ast.Load):
+                        return ast.copy_location(copy.deepcopy(amap_[n.id]), n)
+                    return n
+
+            new_e = _Sub().visit(new_e)
+            # **TABLE[<constant>]  ->  explicit keywords
+            for call_ in [x for x in ast.walk(new_e) if isinstance(x, ast.Call)]:
+                kws = []
+                for kw in call_.keywords:
+                    v_ = kw.value
+                    if kw.arg is None and isinstance(v_, ast.Subscript) and isinstance(v_.value, ast.Name) and isinstance(v_.slice, ast.Constant):
+                        try:
+                            tab = ctx.folder.fold(h.module, v_.value)
+                        except Exception:  # noqa: BLE001
+                            tab = None
+                        if isinstance(tab, dict) and v_.slice.value in tab and isinstance(tab[v_.slice.value], dict) and all(isinstance(k_, str) for k_ in tab[v_.slice.value]):
+                            try:
+                                for k_, val_ in tab[v_.slice.value].items():
+                                    pv = ctx.folder.plain(val_)
+                                    if not (isinstance(pv, (str, int, bool, float)) or pv is None):
+                                        raise ValueError
+                                    kws.append(ast.copy_location(ast.keyword(arg=k_, value=ast.copy_location(ast.Constant(value=pv), v_)), kw))
+                                continue
+                            except ValueError:
+                                pass
+                    kws.append(kw)
+                call_.keywords = kws
+            for n in ast.walk(new_e):
+                if not hasattr(n, "_mod"):
+                    n._mod = h.module  # type: ignore[attr-defined]
+            it2 = copy.copy(it)
+            if isinstance(ce, ast.Await):
+                aw = copy.copy(ce)
+                aw.value = new_e
+                it2.context_expr = aw
+            else:
+                it2.context_expr = new_e
+            for par_ in ast.walk(it2.context_expr):
+                for ch_ in ast.iter_child_nodes(par_):
+                    parents[ch_] = par_
+            new_items.append(it2)
+            inlined.append(h.qualname)
+            inlined_funcs.append(h)
+            hit = True
+        if not hit:
+            return None
+        st2 = copy.copy(st)
+        st2.items = new_items
+        for it in new_items:
+            parents[it.context_expr] = st2
+        if st in parents:
+            parents[st2] = parents[st]
+        changed[0] = True
+        return st2
 
     def bool_test_helper(st):
         """`if [not] helper(): A else: B` with helper a parameterless test-and-act function whose every return is a
